@@ -13,7 +13,7 @@ import ipaddress
 import itertools
 import json
 
-from mc import choices
+from mc import choices, refs
 from mc.runner import Part, Res
 from props import ipdom
 
@@ -374,6 +374,106 @@ class WiringPart(Part):
         return res
 
 
+class SuffixWiringPart(Part):
+    name = "host_bit_option_wiring"
+    desc = "FileAnonymizer / anonymize_files() / main with every (v4 bits, v6 bits) pair: each family keeps its own count"
+
+    def __init__(self, tier, seed):
+        self.tier, self.seed = tier, seed
+
+    def cases(self):
+        pairs = [(0, 16), (8, 32), (16, 0), (8, 8), (24, 64), (32, 128), (1, 127), (None, 16), (8, None)]
+        return [{"b4": a, "b6": b, "salt": salt, "entry": e} for a, b in pairs
+                for salt in ("saltForTest", "seed%d" % self.seed) for e in ("FileAnonymizer", "anonymize_files")] + \
+               [{"b4": b, "b6": b, "salt": "saltForTest", "entry": "main"} for b in (0, 8, 32)]
+
+    def run(self, case):
+        import io
+        import os
+        import shutil
+
+        from mc import seams
+        from netconan.anonymize_files import FileAnonymizer, anonymize_files
+
+        res = Res()
+        b4, b6 = case["b4"], case["b6"]
+        W4 = ipdom.v4_window(self.seed, 2)[::2][:40]
+        W6 = ipdom.v6_window(self.seed, 2)[::3][:40]
+        # partners differing only in (some of) the host bits
+        P4 = [a ^ ((1 << (b4 or 0)) - 1) & 0x55555555 for a in W4] if b4 else []
+        P6 = [a ^ ((1 << (b6 or 0)) - 1) & int("5" * 32, 16) for a in W6] if b6 else []
+        items = [("4", a) for a in W4 + P4] + [("6", a) for a in W6 + P6]
+        text = "".join("a %s b\n" % (refs.v4_text(a) if f == "4" else refs.v6_text(a)) for f, a in items)
+        kw = {}
+        if b4 is not None:
+            kw["preserve_suffix_v4"] = b4
+        if b6 is not None:
+            kw["preserve_suffix_v6"] = b6
+        root = None
+        try:
+            with seams.capture_logs():
+                if case["entry"] == "FileAnonymizer":
+                    out = io.StringIO()
+                    FileAnonymizer(anon_pwd=False, anon_ip=True, salt=case["salt"], **kw).anonymize_io(
+                        io.StringIO(text), out)
+                    got = out.getvalue()
+                else:
+                    root = seams.scratch_dir("c04w")
+                    with open(os.path.join(root, "in.cfg"), "w") as f:
+                        f.write(text)
+                    if case["entry"] == "anonymize_files":
+                        anonymize_files(os.path.join(root, "in.cfg"), os.path.join(root, "out.cfg"),
+                                        anon_pwd=False, anon_ip=True, salt=case["salt"], **kw)
+                    else:
+                        from netconan.netconan import main
+
+                        main(["-a", "-s", case["salt"], "--preserve-host-bits", str(b4),
+                              "-i", os.path.join(root, "in.cfg"), "-o", os.path.join(root, "out.cfg")])
+                    with open(os.path.join(root, "out.cfg")) as f:
+                        got = f.read()
+        finally:
+            if root:
+                shutil.rmtree(root, ignore_errors=True)
+        toks = [ln.split()[1] if len(ln.split()) > 1 else "" for ln in got.splitlines()]
+        if len(toks) != len(items):
+            res.violation("line-count", "%d lines out for %d in" % (len(toks), len(items)), case)
+            return res
+        img = {}
+        for (f, a), tok in zip(items, toks):
+            res.evals += 1
+            try:
+                v = int(ipaddress.ip_address(tok))
+            except ValueError:
+                res.violation("output-token-not-address", "%r" % tok, case)
+                continue
+            img[(f, a)] = v
+            B = (b4 if f == "4" else b6)
+            if B is None:
+                B = 0   # library default: no host bits kept
+            low = (1 << B) - 1
+            if f == "4" and refs.is_mask32(a):
+                continue
+            if v != a:
+                res.nt((case["entry"], b4, b6, f, a))
+            if (a & low) != (v & low):
+                res.violation("host-bits-changed|v%s|%s" % (f, case["entry"]),
+                              "%s(v4 bits %r, v6 bits %r): %s -> %s loses its trailing %d bits" % (
+                                  case["entry"], b4, b6, refs.v4_text(a) if f == "4" else refs.v6_text(a), tok, B), case)
+                break
+        for f, W, P, B in (("4", W4, P4, b4), ("6", W6, P6, b6)):
+            for a, p in zip(W, P):
+                if (f, a) in img and (f, p) in img and not (f == "4" and (refs.is_mask32(a) or refs.is_mask32(p))):
+                    res.evals += 1
+                    if img[(f, a)] >> B != img[(f, p)] >> B:
+                        res.violation("leading-bits-depend-on-host-bits|v%s|%s" % (f, case["entry"]),
+                                      "%s(v4 bits %r, v6 bits %r): %d and %d differ only in host bits, images %d and %d" % (
+                                          case["entry"], b4, b6, a, p, img[(f, a)], img[(f, p)]), case)
+                        break
+        res.out(tuple(toks[:10]))
+        res.samples.append({"case": case, "addresses": len(items)})
+        return res
+
+
 class LongHistory(Part):
     name = "after_long_history"
     desc = "one long request history per configuration (horizon): preserved prefixes and host bits still hold afterwards"
@@ -437,4 +537,4 @@ def parts(tier, seed):
     cli.name = "cli_private_and_listed_networks"
     cli.desc = "main() with --preserve-private-addresses / --preserve-addresses / --preserve-prefixes: outside stays outside"
     return [PrefixPart(tier, seed), HostBitsPart(tier, seed), LazyPart(tier, seed), WiringPart(tier, seed),
-            LongHistory(tier, seed), cli]
+            SuffixWiringPart(tier, seed), LongHistory(tier, seed), cli]
